@@ -132,7 +132,11 @@ pub trait Property: Sync {
     }
 }
 
-pub const VERIF_ROOT: &str = "/verif";
+/// root of the verification tree; background snapshot runs set VERIF_ROOT to their own copy so
+/// that they do not overwrite /verif/evidence
+pub fn verif_root() -> PathBuf {
+    PathBuf::from(std::env::var("VERIF_ROOT").unwrap_or_else(|_| "/verif".to_string()))
+}
 
 // ---------------------------------------------------------------------------------------------
 // known findings
@@ -146,7 +150,7 @@ pub struct Known {
 }
 
 pub fn load_known(property: &str) -> Vec<Known> {
-    let path = Path::new(VERIF_ROOT).join("KNOWN_FINDINGS.txt");
+    let path = verif_root().join("KNOWN_FINDINGS.txt");
     let mut out = vec![];
     if let Ok(s) = std::fs::read_to_string(path) {
         for line in s.lines() {
@@ -550,10 +554,10 @@ fn shrink_isolated(prop: &dyn Property, tier: Tier, bytes: Vec<u8>, kind: &OneRe
 // ---------------------------------------------------------------------------------------------
 
 fn replay_dir(id: &str) -> PathBuf {
-    Path::new(VERIF_ROOT).join("replays").join(id)
+    verif_root().join("replays").join(id)
 }
 fn out_replay_dir(id: &str) -> PathBuf {
-    Path::new(VERIF_ROOT).join("out").join("replays").join(id)
+    verif_root().join("out").join("replays").join(id)
 }
 
 fn write_replay(prop: &dyn Property, bytes: &[u8], f: &Failure, tier: Tier) -> PathBuf {
@@ -593,7 +597,7 @@ pub fn parent_main(prop: &dyn Property, tier: Tier) -> i32 {
         .unwrap_or(16);
     let id = prop.id();
     let known = load_known(id);
-    let scratch = Path::new(VERIF_ROOT).join("out").join("scratch").join(format!("{}_{}", id, std::process::id()));
+    let scratch = verif_root().join("out").join("scratch").join(format!("{}_{}", id, std::process::id()));
     let _ = std::fs::create_dir_all(&scratch);
 
     let mut violations: Vec<(PathBuf, Failure)> = vec![];
@@ -890,7 +894,7 @@ pub fn parent_main(prop: &dyn Property, tier: Tier) -> i32 {
         "wall_s": wall,
         "violations": violations.len(),
     });
-    let evdir = Path::new(VERIF_ROOT).join("evidence");
+    let evdir = verif_root().join("evidence");
     let _ = std::fs::create_dir_all(&evdir);
     std::fs::write(evdir.join(format!("{}.json", id)), serde_json::to_string_pretty(&evidence).unwrap())
         .expect("write evidence");
